@@ -9,7 +9,10 @@ EXTENDS Codec, Json, Randomization, SequencesExt
 
 CONSTANTS Component,      \* "lanelet" | "sign" | "light" | "intersection" | "obstacle" | "planning" | "header" | "numbers" | "mixed" | "mixedx"
           Precisions,     \* decimal precisions of the numbers component, e.g. {1, 4, 8, 12}
-          NMixed          \* number of random mixed cases
+          NMixed,         \* number of random mixed cases
+          DEV_XmlDropsHorn,            \* TRUE: the XML writer as shipped before 7d36fa4 - no <horn> element
+          DEV_ReaderStopsAtFirstUnset  \* TRUE: the readers as shipped before 600bdde - an initial state is read only up to
+                                       \*       its first unset attribute, the rest is replaced by the default
 
 VARIABLE cs
 vars == <<cs>>
@@ -36,7 +39,8 @@ Occ(t, sh) == [t |-> t, sh |-> sh]
 Obst(role, id, type, sh, init, iss, ser, serNone, pred) ==
   [role |-> role, id |-> id, type |-> type, sh |-> sh, init |-> init, iss |-> iss, ser |-> ser, g |-> [serNone |-> serNone],
    pred |-> pred]
-Stop(lm, sref, lref, sN, lN) == [lm |-> lm, sref |-> sref, lref |-> lref, g |-> [srefNone |-> sN, lrefNone |-> lN]]
+StopP(pts, lm, sref, lref, sN, lN) == [pts |-> pts, lm |-> lm, sref |-> sref, lref |-> lref, g |-> [srefNone |-> sN, lrefNone |-> lN]]
+Stop(lm, sref, lref, sN, lN) == StopP(1, lm, sref, lref, sN, lN)
 Adj(id, same) == <<[id |-> id, same |-> same]>>
 Lanelet(id, nv, geo, lml, lmr, pred, succ, adjL, adjR, stop, types, uow, ubi, signs, lights) ==
   [id |-> id, nv |-> nv, geo |-> geo, lml |-> lml, lmr |-> lmr, pred |-> pred, succ |-> succ, adjL |-> adjL, adjR |-> adjR,
@@ -149,7 +153,9 @@ OSignal == {Dyn("CAR", DefRect, InitFull, <<SigOf(TE(0), S, p)>>, <<>>, 1, DefTr
                    pr \in {DefTraj, SetOf(<<Occ(TE(1), DefRect)>>)}}
            \cup {Sta("PARKED_VEHICLE", DefRect, InitFull, <<>>, se[1], se[2]) : se \in Series}
 OPhantom == {Pha(NoPred)} \cup {Pha(SetOf(oc)) : oc \in OccSamples}
-ObstaclePool == OType \cup OShape \cup OTraj \cup OInitVK \cup OInitSub \cup OSignal \cup OPhantom
+OSetShapes == {Dyn("CAR", DefRect, InitFull, <<>>, <<>>, 1, SetP(1, <<Occ(TE(1), sh), Occ(TI(2, 4), sh2)>>)) :
+                 sh \in GroupShapes("offset"), sh2 \in GroupShapes("origin") \cup {DefRect}}
+ObstaclePool == OType \cup OShape \cup OTraj \cup OInitVK \cup OInitSub \cup OSignal \cup OPhantom \cup OSetShapes
 
 (* ------------------------------ planning problem pool (id 91) --------------------------------------------------- *)
 GoalPosKinds == {"none", "rect", "circle", "poly", "grp", "mix", "lanelets"}
@@ -169,8 +175,10 @@ Goals1 == {GoalOf(pk, S, t, ex) : pk \in GoalPosKinds, S \in SUBSET {"orientatio
                                   ex \in {FALSE, TRUE}}
 PPGoals == {<<gl>> : gl \in Goals1}
            \cup {<<GoalOf(a, {"velocity"}, TI(1, 5), FALSE), GoalOf(b, {}, TI(2, 9), FALSE)>> : a, b \in GoalPosKinds}
+PPGoals3 == {<<GoalOf(a, {"velocity"}, TI(1, 5), FALSE), GoalOf("lanelets", {}, TI(2, 9), FALSE), GoalOf(b, {"orientation"}, TI(0, 3), FALSE)>> :
+               a, b \in {"none", "rect", "grp", "lanelets"}}
 PPInits == {InitOf(S) : S \in SUBSET Range(InitialAttrs)} \cup {InitVK(vk) : vk \in {"ori_iv", "sc_iv", "pos_rect"}}
-PPPool == {PP(91, PPInit, gs, IF \A i \in DOMAIN gs : gs[i].lan = <<>> THEN n ELSE 0) : gs \in PPGoals, n \in {0, 1}}
+PPPool == {PP(91, PPInit, gs, IF \A i \in DOMAIN gs : gs[i].lan = <<>> THEN n ELSE 0) : gs \in PPGoals \cup PPGoals3, n \in {0, 1}}
           \cup {PP(91, ini, <<TimeGoal>>, 1) : ini \in PPInits}
 
 (* ------------------------------ lanelet pool (id 1) ------------------------------------------------------------- *)
@@ -181,7 +189,9 @@ LanDef(lml, lmr, adjL, adjR, stop, types, uow, ubi, signs, lights) ==
   Lan(2, "one", lml, lmr, <<>>, <<>>, adjL, adjR, stop, types, uow, ubi, signs, lights)
 Adjs(id) == {<<>>, Adj(id, 1), Adj(id, 0)}
 Stops == {Stop(lm, <<21>>, <<31>>, 0, 0) : lm \in LM} \cup {Stop("SOLID", <<>>, <<>>, 1, 1), Stop("SOLID", <<>>, <<>>, 0, 0),
-                                                              Stop("DASHED", <<21>>, <<>>, 0, 1), Stop("DASHED", <<>>, <<31>>, 1, 0)}
+                                                              Stop("DASHED", <<21>>, <<>>, 0, 1), Stop("DASHED", <<>>, <<31>>, 1, 0),
+                                                              \* without points: "at the end of the lanelet"
+                                                              StopP(0, "SOLID", <<21>>, <<31>>, 0, 0), StopP(0, "BROAD_SOLID", <<>>, <<>>, 1, 1)}
 LTypes == NameSet(LaneletTypeT)
 Users == NameSet(RoadUserT)
 LaneletPool ==
@@ -194,6 +204,9 @@ LaneletPool ==
   \cup {LanDef("SOLID", "DASHED", <<>>, <<>>, <<>>, <<"URBAN">>, <<u>>, <<>>, <<>>, <<>>) : u \in Users}
   \cup {LanDef("SOLID", "DASHED", <<>>, <<>>, <<>>, <<"URBAN">>, <<>>, <<u>>, <<>>, <<>>) : u \in Users}
   \cup {LanDef("SOLID", "DASHED", <<>>, <<>>, <<>>, <<"URBAN">>, Names(RoadUserT), <<"BICYCLE", "PEDESTRIAN">>, <<>>, <<>>)}
+  \cup {Lan(3, "ordinary", l, r, <<2>>, <<3>>, a, b, <<s>>, <<"URBAN", "BUS_LANE">>, <<"CAR", "BUS">>, <<"BICYCLE">>, <<21>>, <<31>>) :
+          l \in {"SOLID", "BROAD_DASHED", "UNKNOWN"}, r \in {"DASHED", "CURB"}, a \in Adjs(2), b \in Adjs(3),
+          s \in {Stop("SOLID", <<21>>, <<31>>, 0, 0), StopP(0, "DASHED", <<21>>, <<>>, 0, 1)}}         \* adjacency + stop line + markings
   \cup {Lan(nv, geo, "SOLID", "DASHED", pr, su, <<>>, <<>>, <<>>, <<"HIGHWAY">>, <<>>, <<>>, <<>>, <<>>) :
           nv \in {2, 3}, geo \in {"one", "ordinary", "long"}, pr \in {<<>>, <<2>>, <<2, 3>>}, su \in {<<>>, <<3>>, <<3, 2>>}}
 
@@ -204,6 +217,10 @@ SignPool ==      \* <<sign, country of the scenario>>
   {<<Sign(21, <<SignEl(SignIdT[i], av)>>, XYp("ordinary", "neg"), v, <<>>), c>> : i \in DOMAIN SignIdT, av \in AVs, v \in {0, 1}, c \in Countries}
   \cup {<<Sign(21, <<SignEl(SignIdT[1], <<"30">>), SignEl(SignIdT[i], <<>>)>>, XYp("one", "one"), v, f), "ZAM">> :
           i \in 1..7, v \in {0, 1}, f \in {<<>>, <<1>>, <<1, 2>>}}
+SignAllIds == {<<Sign(21, <<SignEl(SignIdGermanyT[i], <<>>)>>, XYp("ordinary", "neg"), 0, <<>>), c>> : i \in DOMAIN SignIdGermanyT, c \in {"ZAM", "DEU"}}
+(* virtual = TRUE triggers the known finding C01-virtual-attribute (XML reader): outside this small family XML cases use FALSE *)
+VirtualQuota == {Sign(21, <<SignEl(SignIdT[i], <<"50">>)>>, XYp("ordinary", "neg"), 1, <<>>) : i \in 1..3}
+QuotaOK(d) == \A s \in Range(d.signs) : s.virt = 1 => s \in VirtualQuota
 Colors == NameSet(LightStateT)
 Cycles == {<<Cyc(a, 1)>> : a \in Colors} \cup {<<Cyc(a, 2), Cyc(b, 30)>> : a, b \in Colors}
           \cup {<<Cyc("RED", 2), Cyc("RED_YELLOW", 1), Cyc(a, 5)>> : a \in Colors}
@@ -289,7 +306,7 @@ NumDescs == {EmbedObst(o) : o \in NumObst} \cup {EmbedHdr(h) : h \in NumHdr} \cu
 (* mixed: every component drawn at random; lanelet 2 references sign 21 and light 31 so that any draw is well formed *)
 ReId(o, id) == [o EXCEPT !.id = id]
 (* "mixed": any well-formed pool element; "mixedx": only elements the XML schema can express *)
-PoolOK(d) == WellFormed(d) /\ (Component = "mixedx" => XmlExpressible(d))
+PoolOK(d) == WellFormed(d) /\ (Component = "mixedx" => XmlExpressible(d) /\ QuotaOK(d))
 OkObst == {o \in ObstaclePool : PoolOK(EmbedObst(o))}
 OkObstByRole == [r \in {"static", "dynamic"} |-> {o \in OkObst : o.role = r}]
 OkPP == {p \in PPPool : PoolOK(EmbedPP(p))}
@@ -312,7 +329,7 @@ Cases ==
   CASE Component = "obstacle"     -> {Case("obstacle", 4, EmbedObst(o)) : o \in ObstaclePool}
     [] Component = "planning"     -> {Case("planning", 4, EmbedPP(p)) : p \in PPPool}
     [] Component = "lanelet"      -> {Case("lanelet", 4, EmbedLanelet(la)) : la \in LaneletPool}
-    [] Component = "sign"         -> {Case("sign", 4, EmbedSign(sc)) : sc \in SignPool}
+    [] Component = "sign"         -> {Case("sign", 4, EmbedSign(sc)) : sc \in SignPool \cup SignAllIds}
     [] Component = "light"        -> {Case("light", 4, EmbedLight(t)) : t \in LightPool}
     [] Component = "intersection" -> {Case("intersection", 4, EmbedInter(x)) : x \in InterPool}
     [] Component = "header"       -> {Case("header", 4, EmbedHdr(h)) : h \in HeaderPool}
@@ -327,35 +344,65 @@ Spec == Init /\ [][Next]_vars
 (* ------------------------------ laws checked on every case ---------------------------------------------------------- *)
 D == cs.desc
 LawWellFormed == WellFormed(D)                                        \* the pools stay inside the common sanity conditions
-LawIdempotent == ReadBack(ReadBack(D)) = ReadBack(D)
+LawIdempotent == \A fmt \in {"xml", "pb"} : ReadBackOf(fmt, ReadBackOf(fmt, D)) = ReadBackOf(fmt, D)
 (* ReadBack is the identity on carried leaves, except that unset attributes of initial states appear with the default *)
 InitDefaultPaths == {"initialState." \o AttrShort(InitialAttrs[i]) \o x : i \in DOMAIN InitialAttrs, x \in {"", ".kind"}}
 LawIdentityOnCarried ==
   \A fmt \in {"xml", "pb"} :
     LET e == Expected(fmt, D)  c == CarriedLeaves(fmt, D) IN
-    /\ SelectSeq(e, LAMBDA l : l[4] # "r0" /\ ~(l[3] \in InitDefaultPaths /\ l \notin Range(c))) = c
-    /\ \A l \in Range(e) \ Range(c) : l[1] \in {"obstacle", "planning"} /\ l[3] \in InitDefaultPaths
+    /\ SelectSeq(e, LAMBDA l : l[4] \notin {"r0", "rD"} /\ ~(l[3] \in InitDefaultPaths /\ l \notin Range(c)) /\ l[3] # "stopLine.hasPoints")
+         = SelectSeq(c, LAMBDA l : l[3] # "stopLine.hasPoints")
+    /\ \A l \in Range(e) \ Range(c) : \/ (l[1] \in {"obstacle", "planning"} /\ l[3] \in InitDefaultPaths)
+                                       \/ (fmt = "xml" /\ l[1] = "lanelet" /\ l[3] \in {"stopLine", "stopLine.hasPoints"})
 LawPopulatedPreserved == \A sq \in Range(AllStates(D)) : PopulatedPreservedFor(PopSet(sq[1]), sq[2])
 (* what the expected read-back of a state populates is exactly Populated(written attributes, isInitial) *)
 LawExpectedPopulated == LET a == AllStates(D)  b == AllStates(ReadBack(D)) IN
                         \A i \in DOMAIN a : PopSet(b[i][1]) = Populated(PopSet(a[i][1]), a[i][2])
 LawCarriedMonotone == \A l \in Range(Leaves(D)) : XmlCarried(l) => PbCarried(l)      \* protobuf carries whatever XML carries
 (* a read-back whose reals come back in the required class is accepted by the comparison the trace spec uses *)
-LawAccepts == LET lv == Leaves(ReadBack(D))
-                  proj(c) == [i \in DOMAIN lv |-> IF lv[i][4] = "r" THEN <<lv[i][1], lv[i][2], lv[i][3], c>>
-                                                  ELSE IF lv[i][4] = "r0" THEN <<lv[i][1], lv[i][2], lv[i][3], "re:zero">> ELSE lv[i]]
-              IN Diff("xml", Expected("xml", D), proj("re:within_tol")) = "" /\ Diff("pb", Expected("pb", D), proj("re:exact")) = ""
+LawAccepts == LET proj(fmt, c) == LET lv == Leaves(ReadBackOf(fmt, D)) IN
+                                     [i \in DOMAIN lv |-> IF lv[i][4] = "r" THEN <<lv[i][1], lv[i][2], lv[i][3], c>>
+                                                          ELSE IF lv[i][4] = "r0" THEN <<lv[i][1], lv[i][2], lv[i][3], "re:zero">>
+                                                          ELSE IF lv[i][4] = "rD" THEN <<lv[i][1], lv[i][2], lv[i][3], "re:other">> ELSE lv[i]]
+              IN Diffs("xml", Expected("xml", D), proj("xml", "re:within_tol")) = {} /\ Diffs("pb", Expected("pb", D), proj("pb", "re:exact")) = {}
+
+(* ---- implementation-shaped round trip with named deviations (all FALSE: the design after the fixes) ---------------- *)
+DropHorn(sg) == [sg EXCEPT !.b = SelectSeq(sg.b, LAMBDA e : e.n # "horn")]
+ImplObstacleXml(o) == IF DEV_XmlDropsHorn /\ o.role = "dynamic" THEN [o EXCEPT !.iss = Map(o.iss, DropHorn), !.ser = Map(o.ser, DropHorn)] ELSE o
+(* reading stops at the first attribute (InitialState field order) the file does not have *)
+ImplFillInitial(st) ==
+  LET miss == {i \in DOMAIN InitialAttrs : ~Has(st, InitialAttrs[i])}
+      k == IF miss = {} THEN Len(InitialAttrs) + 1 ELSE CHOOSE i \in miss : \A j \in miss : i <= j
+  IN IF ~DEV_ReaderStopsAtFirstUnset THEN FillInitial(st)
+     ELSE [st EXCEPT !.a = [i \in DOMAIN InitialAttrs |-> IF i < k THEN [n |-> InitialAttrs[i], v |-> Val(st, InitialAttrs[i])]
+                                                         ELSE [n |-> InitialAttrs[i], v |-> DefaultVal(InitialAttrs[i])]],
+                     !.c = "InitialState"]
+ImplReadBack(fmt, d) ==
+  LET rb == ReadBackOf(fmt, d) IN
+  [rb EXCEPT !.obstacles = [i \in DOMAIN d.obstacles |->
+                              LET o == IF fmt = "xml" THEN ImplObstacleXml(d.obstacles[i]) ELSE d.obstacles[i] IN
+                              IF o.role \in {"static", "dynamic"} THEN [o EXCEPT !.init = ImplFillInitial(o.init)] ELSE o],
+             !.pps = [i \in DOMAIN d.pps |-> [d.pps[i] EXCEPT !.init = ImplFillInitial(d.pps[i].init)]]]
+(* Impl => Contract: what the implementation model reads back is accepted by the comparison of the trace spec *)
+LawImplConforms ==
+  \A fmt \in {"xml", "pb"} :
+    LET lv == Leaves(ImplReadBack(fmt, D))
+        c == IF fmt = "xml" THEN "re:within_tol" ELSE "re:exact"
+        pr == [i \in DOMAIN lv |-> IF lv[i][4] = "r" THEN <<lv[i][1], lv[i][2], lv[i][3], c>>
+                                   ELSE IF lv[i][4] = "r0" THEN <<lv[i][1], lv[i][2], lv[i][3], "re:zero">>
+                                   ELSE IF lv[i][4] = "rD" THEN <<lv[i][1], lv[i][2], lv[i][3], "re:other">> ELSE lv[i]]
+    IN ((fmt = "xml" => XmlExpressible(D)) /\ (fmt = "pb" => PbExpressible(D))) => Diffs(fmt, Expected(fmt, D), pr) = {}
 
 (* contract and schema are mutually consistent: the document the contract demands is valid *)
 LawSchema == XmlExpressible(D) => ContractDocValid(D)
 
 Emit == PrintT(<<"CASE", ToJson([comp |-> cs.comp, d |-> cs.d, desc |-> cs.desc,
-                                 xml |-> XmlExpressible(cs.desc), pb |-> PbExpressible(cs.desc)])>>)
+                                 xml |-> XmlExpressible(cs.desc), pb |-> PbExpressible(cs.desc), q |-> QuotaOK(cs.desc)])>>)
 
 (* the tables of Codec.tla, printed once: the harness checks its value tables against them *)
 ASSUME PrintT(<<"TABLE", ToJson([enums |-> EnumTables, pbenums |-> [k \in DOMAIN PbEnums |-> SetToSeq(PbEnums[k])],
                                  numtoks |-> NumToks, positive |-> SetToSeq(PositiveToks), intervals |-> SetToSeq(IntervalPairs), angletoks |-> SetToSeq(AngleToks),
-                                 attrs |-> AttrT, classes |-> StateClassT, signids |-> SignIdT, signals |-> SignalT,
+                                 attrs |-> AttrT, classes |-> StateClassT, signids |-> SignIdT \o SignIdGermanyT, signals |-> SignalT,
                                  countries |-> [c \in DOMAIN CountryClass |-> SetToSeq(CountryClass[c])],
                                  xsd |-> [k \in DOMAIN Enums |-> SetToSeq(Enums[k])], xsdtags |-> TagSeq])>>)
 =============================================================================
